@@ -233,6 +233,19 @@ class FAddP(Schema):
     r: int = 0
 
 
+class FDep(Schema):
+    __options__ = Options(invalid_values='exclude')
+    a: int = Field(ge=0, default=7, dependencies=['b'])
+    b: int = Field(ge=0, required=False)
+    c: int = Field(ge=0, required=False, dependencies=['b'])
+
+
+class FDepStrict(Schema):
+    a: int = Field(ge=0, default=7, dependencies=['b'])
+    b: int = Field(ge=0, required=False)
+    c: int = Field(ge=0, required=False, dependencies=['b'])
+
+
 class FAddD(Schema):
     __options__ = Options(addition=Decimal, invalid_values='exclude')
     r: int = 0
@@ -412,3 +425,26 @@ def nested(V):
     if r[0] == 'ok':
         V.check(len(r[1]) == len(want) and all(seq_eq(x, y) for x, y in zip(r[1], want)), 'nested:value', d)
     V.cover('offender' if any_bad else 'clean')
+
+
+@ob('fields/dependencies', marks=['offender', 'clean'], budget=(60, 200),
+    bounds="Schema with Options(invalid_values='exclude'): a (default 7, depends on b), b optional, c optional (depends on b); each value "
+           'absent | solver int -3..3 | "x" | "5": the outcome is that of strict parsing with the offending fields removed (an excluded '
+           'field no longer requires its dependencies)')
+def fields_dependencies(V):
+    data = {}
+    for n in ('a', 'b', 'c'):
+        v, has = _val(V, n)
+        if has:
+            data[n] = v
+    clean = {k: v for k, v in data.items() if conv_ge0(v)[0] == 'ok'}
+    r = attempt(FDep, **data)
+    want = attempt(FDepStrict, **clean)
+    d = lambda: 'FDep(**%r) -> %r ; strict parsing of %r -> %r' % (data, r if r[0] != 'ok' else ('ok', dict(r[1])), clean,
+                                                                 want if want[0] != 'ok' else ('ok', dict(want[1])))
+    V.check(r[0] != 'crash', 'fields:crash', d)
+    excluded_with_default = 'a' in data and 'a' not in clean
+    V.check(r[0] == want[0], 'fields:dependencies:verdict' + (':excluded-field-with-default' if excluded_with_default else ''), d)
+    if r[0] == 'ok':
+        V.check(dict(r[1]) == dict(want[1]), 'fields:dependencies:value', d)
+    V.cover('offender' if len(clean) != len(data) else 'clean')
